@@ -19,7 +19,7 @@ def pick(ctx, q, t):
     return q if ctx.quick else t
 
 
-PARSE_KINDS_TREE = {'tree-mismatch', 'accepted-invalid', 'rejected-valid', 'panic', 'opts-mismatch', 'timeout', 'option-in-tree'}
+PARSE_KINDS_TREE = {'after-related-input', 'tree-mismatch', 'accepted-invalid', 'rejected-valid', 'panic', 'opts-mismatch', 'timeout', 'option-in-tree'}
 PARSE_KINDS_ERRTEXT = {'errtext-empty', 'errtext-keyword', 'errtext-word', 'errtext-foreign-quote'}
 
 
@@ -354,11 +354,13 @@ def sem_validate(ctx, acc, name, trace, kinds, timeout=3000, consts=''):
     unmodelled = [v for v in verdicts if 'unmodelled' in v['kinds']]
     nfail0 = len(acc.failures)
     for v in verdicts:
-        if 'unmodelled' in v['kinds']:
-            continue
-        if v['kinds']:
+        # a program that leaves the runtime model is not executed, but what the STATIC analyses (scope, resources,
+        # user strings, mode, table) found in it still counts (seed C11-i: a name used and never bound made the
+        # evaluator give up, and the scope verdict of the same record was thrown away with it)
+        vk = [k for k in v['kinds'] if k != 'unmodelled']
+        if vk:
             r = recs[v['idx'] - 1]
-            f = {'kinds': v['kinds'], 'tree': r['t'], 'o': r['o'], 'info': v.get('info'), 'file': v.get('file'), 'stage': name,
+            f = {'kinds': vk, 'tree': r['t'], 'o': r['o'], 'info': v.get('info'), 'file': v.get('file'), 'stage': name,
                  'compile': r['c']['st'], 'text': ctx.t.text_of(r['c']['renders'][0].get('text', [])) if r['c']['st'] == 'ok' else ctx.t.text_of(r['c'].get('msg', []))}
             acc.failures.extend(keep([f], kinds))
             stage_failed = True
@@ -665,7 +667,7 @@ def c04(ctx):
                   level='model_checking')
     return r
 
-SCOPE_KINDS = {'name-bound-twice', 'use-before-binding', 'captured-by-lambda', 'matcher-count', 'printer-count', 'not-a-let*',
+SCOPE_KINDS = {'name-bound-twice', 'use-before-binding', 'use-without-binding', 'captured-by-lambda', 'matcher-count', 'printer-count', 'not-a-let*',
                'bad-binding', 'truth-mismatch', 'outs-mismatch', 'runtime-error', 'malformed-program', 'tag-sharing', 'tag-duplicate',
                'iomap-targets-wrong', 'tag-unknown', 'compile-panic', 'no-scan-call', 'timeout'}
 
